@@ -143,13 +143,15 @@ def handler : Handler := fun op inp out =>
     | some (s, p) =>
       let pf (d : Nat) : Nat := p.getD (d - 1) 0
       let s' := renumRaw s pf
-      let m := payload [(symOf s .partialSym).bind modelKS, (symOf s' .partialSym).bind modelKS]
+      let mv : Option (List String) := (symOf s' .partialSym).bind fun y' =>
+        (modelKS y').map fun ks => ks ++ [encSym y'.data]
+      let m := payload [(symOf s .partialSym).bind modelKS, mv]
       if panicked then (m, fail "no-panic-on-complete-2d-symbol") else
-      match run (do let a ← parseKS; let b ← parseKS; pure (a, b)) out with
-      | some (a, b) =>
+      match run (do let a ← parseKS; let b ← parseKS; let d ← P.rawSym; pure (a, b, d)) out with
+      | some (a, b, d) =>
         (m, check (
           [("input-is-a-complete-2d-symbol", s.dim == 2 && (specG s).wellFormed),
-           ("variant-is-a-renumbering", (specG s).isRenumbering (specG s') pf)] ++
+           ("variant-is-a-renumbering", d.dim == 2 && (specG s).isRenumbering (specG d) pf)] ++
           invClauses a.1 b.1 a.2 b.2))
       | none => (m, fail "answers-missing")
     | none => bad
